@@ -84,11 +84,12 @@ func (s *subPub) process() {
 				continue
 			}
 			slice := v.([]*subInfo)
-			cSlice := make([]*subInfo, len(slice))
-			copy(cSlice, slice)
-			for j := 0; j < len(cSlice); j++ {
-				if cSlice[j].notifier == info.notifier {
-					cSlice = append(cSlice[:j], cSlice[j+1:]...)
+			// keep the registrations of all other notifiers (in a fresh slice:
+			// Publish may still be iterating over the old one)
+			cSlice := make([]*subInfo, 0, len(slice))
+			for _, sub := range slice {
+				if sub.notifier != info.notifier {
+					cSlice = append(cSlice, sub)
 				}
 			}
 			if len(cSlice) == 0 {
